@@ -32,6 +32,11 @@ executed inside reachable objects of the right class; every non-scratch site lie
 one of the 17 roles is created on some path. -/
 theorem paths_certified : pathsOk W (canonObjs W) = true ∧ pathsCover W = true := by decide +kernel
 
+/-- Every class-valued property of the regenerated wiring (`glyph.contourClass`, `glyph.pointClass`, …,
+`contour.pointClass`) is listed with its role, exists on a reachable object, and symbolically returns the
+registration of that role. -/
+theorem props_certified : propsOk W (canonObjs W) = true := by decide +kernel
+
 /-! ## 1. Parametricity: the wiring never inspects the class -/
 
 /-- For EVERY wiring, configuration, symbolic object and site: interpreting the symbolic class at the
@@ -86,6 +91,15 @@ theorem default_class_when_not_registered (cfg : Cfg) (chain : List Site) (o : O
     classAt W o s = some (.builtin (dfltName r)) := by
   rw [slot_flow_identity cfg chain o s r hin hr hs hown (Or.inl hd)]
   simp [expected, hcfg]
+
+/-- class_properties_registered.  The public class properties — what a caller uses to build the objects he
+inserts himself, e.g. `contour.appendPoint(contour.pointClass((x, y)))` — return, on every reachable glyph
+and contour, under every configuration, the class expected for their role. -/
+theorem class_properties_registered (cfg : Cfg) (chain : List Site) (o : Obj) (c : CName) (p : Ident) (r : Role)
+    (hin : ∀ x ∈ chain, x ∈ W.sites) (hr : reach W cfg chain = some o)
+    (hm : (c, p, r) ∈ propRoles) (hcd : o.cd = c) :
+    propValue W o p = some (expected cfg r) :=
+  props_of_check wiring_certified props_certified cfg chain o c p r hin hr hm hcd
 
 /-! ## 3. The creation paths of the property -/
 
@@ -217,6 +231,10 @@ example : ∃ chain o s, (∀ x ∈ chain, x ∈ W.sites) ∧ reach W cfgA chain
         unfold reachIds at this; rw [hv] at this; exact this
       · rw [(site_some hs).2]; decide
       · rw [hcls]; decide
+
+/-- a contour obtained by reversing hands out the registered point class through `pointClass` -/
+example : (reachIds W cfgA (toContour ++ ["Contour.reverse"])).bind (fun o => propValue W o "pointClass")
+    = some (.user 3 "Point") := by decide +kernel
 
 /-- the path table names the creation paths of the property -/
 example : paths.map (·.1) = ["load", "create", "insertGlyph", "dictAppend", "factory", "penDraw", "reverse",
